@@ -1138,7 +1138,45 @@ fn gen_fields(d: &mut D, tr: &str, named: bool, magic: bool, max: usize) -> Vec<
     out
 }
 
+/// Declarations in which a cross-field rule is violated next to otherwise clean, fully set-up receivers (magic
+/// fields present, forwarding declared): rules checked by one validator must not be skipped because another
+/// validator was satisfied.
+fn gen_cross_rule_decl(d: &mut D) -> Decl {
+    let tr = d.pick(TRAITS).to_string();
+    let mut container: Attrs = vec![];
+    let mut fields: Vec<FieldD> = vec![];
+    if is_element_level(&tr) {
+        container.push(vec![valid_forms("attributes")[0].clone()]);
+        if d.ratio(2, 3) {
+            container.push(vec![d.pick(&valid_forms("forward_attrs")).clone()]);
+            fields.push(FieldD { name: Some("attrs".into()), ty: "Vec<syn::Attribute>".into(), attrs: vec![] });
+        }
+        for n in passthrough_names(&tr) {
+            if d.ratio(1, 3) && !fields.iter().any(|f| f.name.as_deref() == Some(n)) {
+                fields.push(FieldD { name: Some(n.to_string()), ty: "syn::Ident".into(), attrs: vec![] });
+            }
+        }
+    }
+    // two or three flatten fields, or flatten next to a conflicting option on another field
+    let k = d.range(2, 3);
+    for i in 0..k {
+        let forms = valid_forms("flatten");
+        fields.push(FieldD { name: Some(format!("fl{}", i)), ty: "Inner".into(), attrs: vec![vec![d.pick(&forms).clone()]] });
+    }
+    if d.bool() {
+        fields.push(FieldD { name: Some("plain".into()), ty: "u8".into(), attrs: gen_attrs(d, FIELD_VOCAB, 2, false) });
+    }
+    // declaration order is part of the space
+    if d.bool() {
+        fields.reverse();
+    }
+    Decl { tr, container, body: BodyD::Struct(Shape::Named(fields)) }
+}
+
 pub fn gen_decl(d: &mut D) -> Decl {
+    if d.ratio(1, 25) {
+        return gen_cross_rule_decl(d);
+    }
     let tr = d.pick(TRAITS).to_string();
     let vocab = container_vocab(&tr);
     let mut container = gen_attrs(d, &vocab, 5, tr == "FromVariant");
